@@ -121,9 +121,7 @@ pub fn evaluate_case(check: &str, scenario: &Arc<Scenario>, sched: &SchedSpec, t
             let prague = scenario.evm.spec >= revm_primitives::hardfork::SpecId::PRAGUE;
             let guard = scenario.grevm.forbid_delegated_create && prague;
             let reserve = scenario.grevm.reserve_delegated_balance && prague;
-            if guard {
-                oracle::run_relation_case(scenario, sched, trace, want)
-            } else if reserve {
+            if guard || reserve {
                 // the independent rule model as reference (outcomes, per-commit deltas, bundle), then
                 // path agreement and the fundability invariant
                 let mut a = oracle::run_pipeline_case(scenario, sched, trace.clone(), want);
@@ -406,7 +404,7 @@ pub fn check_spec(id: &str) -> CheckSpec {
         "C10" => CheckSpec { id: "C10", runs_quick: 250_000, runs_thorough: 5_000_000, level: "exploration", rule: "cases = three families (see reach.case_groups): pipeline runs on a cold cache with read-back of every key the reference touched (half of them two consecutive blocks on one state); state-readers: 1-3 reader tasks against an in-order committer on the production split views, history = real journal output; history-differential: sequential operation histories (commits, balance increments / drains, merges, extractions, account / slot / block-hash reads) applied to ParallelState and revm State alike; non-trivial = pipeline: re-execution / conflict / fallback, state-readers: some read overlapped a commit, history: more than three operations; distinct = distinct abstract behaviour digest of the family among non-trivial cases" },
         "C11" => CheckSpec { id: "C11", runs_quick: 250_000, runs_thorough: 5_000_000, level: "exploration", rule: rule_pipeline },
         "C14" => CheckSpec { id: "C14", runs_quick: 250_000, runs_thorough: 5_000_000, level: "exploration", rule: rule_pipeline },
-        "C13" => CheckSpec { id: "C13", runs_quick: 160_000, runs_thorough: 5_000_000, level: "exploration", rule: "cases = seeded blocks of the reserve profile; with the reserve policy alone (Prague+) a case is one simulated parallel run checked against the independent rule model (outcomes, every commit, bundle) plus five further runs for path agreement (other worker count, threshold path, force_sequential, fallback entry) and the fundability invariant; with the CREATE guard on only the five-way relation; policy off or pre-Prague one simulated run against stock revm; non-trivial = re-execution, erroring attempt, fallback or error result; distinct = distinct abstract behaviour among non-trivial cases (probe.reserve_model_* counters report how many blocks / debit transactions / charged reverts the model decided)" },
+        "C13" => CheckSpec { id: "C13", runs_quick: 160_000, runs_thorough: 5_000_000, level: "exploration", rule: "cases = seeded blocks of the reserve profile; with a delegated-safety policy on (reserve, CREATE guard or both; Prague+) a case is one simulated parallel run checked against the independent rule model (outcomes, every commit, bundle; the model carries the reserve rule and the guard) plus five further runs for path agreement (other worker count, threshold path, force_sequential, fallback entry) and the fundability invariant; policy off or pre-Prague one simulated run against stock revm; non-trivial = re-execution, erroring attempt, fallback or error result; distinct = distinct abstract behaviour among non-trivial cases (probe.reserve_model_* counters report how many blocks / debit transactions / charged reverts the model decided)" },
         other => panic!("unknown check {other}"),
     }
 }
